@@ -64,6 +64,11 @@ pub(crate) fn bbox_write_z_range_to<PointType: HasZ, W: Write>(
     Ok(())
 }
 
+/// Upper bound on the number of elements for which memory is reserved before
+/// the corresponding data was actually read from the source, as the counts
+/// stored in a file cannot be trusted.
+pub(crate) const MAX_PREALLOCATED_ELEMENTS: usize = 1024;
+
 fn invalid_data(msg: &'static str) -> std::io::Error {
     std::io::Error::new(std::io::ErrorKind::InvalidData, msg)
 }
@@ -78,7 +83,7 @@ where
 {
     let num_points =
         usize::try_from(num_points).map_err(|_| invalid_data("negative number of points"))?;
-    let mut points = Vec::<PointType>::with_capacity(num_points);
+    let mut points = Vec::<PointType>::with_capacity(num_points.min(MAX_PREALLOCATED_ELEMENTS));
     for _ in 0..num_points {
         let mut p = PointType::default();
         *p.x_mut() = source.read_f64::<LittleEndian>()?;
@@ -114,7 +119,7 @@ pub(crate) fn read_parts<T: Read>(
 ) -> Result<Vec<i32>, std::io::Error> {
     let num_parts =
         usize::try_from(num_parts).map_err(|_| invalid_data("negative number of parts"))?;
-    let mut parts = Vec::<i32>::with_capacity(num_parts);
+    let mut parts = Vec::<i32>::with_capacity(num_parts.min(MAX_PREALLOCATED_ELEMENTS));
     for _ in 0..num_parts {
         parts.push(source.read_i32::<LittleEndian>()?);
     }
